@@ -333,7 +333,12 @@ where
                     let mut rng = Rng::new(seed.wrapping_mul(1000003).wrapping_add(t as u64));
                     let mut r = Report::new(&prop, "");
                     WORKER_IX.with(|w| w.set(t));
-                    f(t, &mut d, &mut rng, &mut r);
+                    // a panic that escapes the per-call guards (raised inside the crate under test by a call the
+                    // runner did not wrap) must not take the whole run down as a mere "harness failed": it is
+                    // reported as a failure of the case in flight, together with everything recorded so far
+                    if guarded(|| f(t, &mut d, &mut rng, &mut r)).is_err() {
+                        r.judge_fail(J::obj(vec![("what", J::s("a panic raised while the harness was calling the crate under test escaped to the worker (no per-call guard at that site)")), ("case_in_flight", J::s(&current_case()))]));
+                    }
                     r
                 })
             })
@@ -356,6 +361,19 @@ static mut CASES: [[u8; SLOT_LEN]; SLOTS] = [[0; SLOT_LEN]; SLOTS];
 static mut CASE_LEN: [usize; SLOTS] = [0; SLOTS];
 thread_local! { static MY_SLOT: std::cell::Cell<usize> = std::cell::Cell::new(usize::MAX); }
 static NEXT_SLOT: std::sync::atomic::AtomicUsize = std::sync::atomic::AtomicUsize::new(0);
+
+/// the case most recently recorded by this thread
+pub fn current_case() -> String {
+    let slot = MY_SLOT.with(|s| s.get());
+    if slot == usize::MAX {
+        return String::new();
+    }
+    unsafe {
+        let n = *(std::ptr::addr_of!(CASE_LEN[slot]));
+        let src = std::ptr::addr_of!(CASES[slot]) as *const u8;
+        String::from_utf8_lossy(std::slice::from_raw_parts(src, n.min(4000))).to_string()
+    }
+}
 
 pub fn set_case(text: &str) {
     let slot = MY_SLOT.with(|s| {
